@@ -387,7 +387,9 @@ def layout_discipline(repo, pid="C07"):
                 if isinstance(sub, ast.Compare):
                     sides = [sub.left] + list(sub.comparators)
                     lits = [s for x in sides for s in _lit_strings(x)]
-                    if not any(_has_letter(s) for s in lits):
+                    # compared with a letter-bearing literal, or with a NON-literal (a variable may hold a keyword)
+                    nonlit = [x for x in sides if not _lit_strings(x) and not (isinstance(x, ast.Attribute) and x.attr in ("raw", "value", "normalized", "raw_upper")) and not isinstance(x, ast.Constant)]
+                    if not any(_has_letter(s) for s in lits) and not nonlit:
                         continue
                     for x in sides:
                         if isinstance(x, ast.Attribute) and x.attr in ("raw", "value", "normalized") and not _lit_strings(x):
@@ -395,8 +397,6 @@ def layout_discipline(repo, pid="C07"):
                             name = f"{pid}:site:{m.name}:{qual}:{text}"
                             if x.attr == "normalized":
                                 out.append({"name": name, "status": "proved", "detail": "sqlparse `normalized` is the upper-cased keyword text", "clause": "keywords_compared_case_insensitively", "backend": "syntactic scan", "kind": "K3-site"})
-                            elif all(s == s.lower() and s == s.upper() for s in lits if False):
-                                pass
                             elif (m.name, qual, text) in RAW_TEXT_ASSUMED:
                                 out.append({"name": name, "status": "assumed", "detail": "ASSUMED: " + RAW_TEXT_ASSUMED[(m.name, qual, text)], "clause": "keywords_compared_case_insensitively", "backend": "syntactic scan", "kind": "K3-site"})
                             else:
